@@ -764,7 +764,7 @@ def run(ctx):
         raise MachineryError("vacuous: no tagging history in which two refs share one tag object")
 
     # ---------------------------------------------------------------- 2. replay against the real binary
-    budget = int(os.environ.get("VERIF_C20_MAX", "0")) or (8000 if thorough else 750)
+    budget = int(os.environ.get("VERIF_C20_MAX", "0")) or (6000 if thorough else 750)
     order = list(range(len(cases)))
     if len(order) > budget:
         # The long simulated histories are always replayed.  The breadth-first cases are stratified by the SHAPE of
